@@ -305,6 +305,23 @@ def _random_pair(args):
     return execs, len(got), bad
 
 
+def concurrent_pairs(tier):
+    """Two jobs evaluating the same built-in (and operators) with different operands at the same time."""
+    one = ['round', 'trunc', 'floor', 'ceil', 'sqrt', 'sin', 'cos', 'tan', 'asin', 'acos', 'atan', 'cycle']
+    args = {'asin': (0.5, 1), 'acos': (0.5, 1), 'cycle': (400, 725.5)}
+    out = []
+    for f in one:
+        a, b = args.get(f, (2.5, 7.25))
+        out.append(('assign v [%s %s] print v print {[%s %s] * 2 + 1}' % (f, a, f, a),
+                    'assign v [%s %s] print v print {[%s %s] * 2 + 1}' % (f, b, f, b)))
+    out.append(('print [random 5 5] print {[random 6 6] + [random 7 7]}', 'print [random 50 50] print {[random 60 60] + [random 70 70]}'))
+    out.append(('print {2 ^ 3 ^ 2 - 7 % 4} print {1 < 2 and 0 or 5}', 'print {3 ^ 2 ^ 2 - 9 % 5} print {2 < 1 or 0 and 5}'))
+    out.append(('print [round [sqrt 16]] print [floor {[ceil 2.5] / 2}]', 'print [round [sqrt 81]] print [floor {[ceil 6.5] / 2}]'))
+    if tier == 'quick':
+        return [(world.POP_ONE, a, b, 1) for a, b in out]
+    return [(world.POP_ONE, a, b, 2) for a, b in out]
+
+
 def run(tier, seed):
     rep = Report()
     parts = ['A1', 'A2', 'B3', 'E'] + (['B4'] if tier == 'thorough' else [])
@@ -340,9 +357,19 @@ def run(tier, seed):
     for (a, b), (execs, ngot, bad) in zip(pairs, rres):
         if bad:
             merge({bad[0]: [1, bad[1], bad[2]]})
+    from . import concur
+    ctasks = concurrent_pairs(tier)
+    cres = par.run_tasks(concur.pair_task, ctasks)
+    cexec = sum(r['execs'] for r in cres)
+    assert cexec > 20 * len(ctasks) and all(r['execs'] > 2 for r in cres)
     for kind, (cnt, text, detail) in sorted(viol.items()):
         rep.violation(kind, '%s (%d cases), e.g. `%s`: %s' % (kind, cnt, text, detail),
                       {'script': text, 'detail': detail, 'cases': cnt})
+    for task, r in zip(ctasks, cres):
+        for kind, (cnt, choices, detail, texts) in r['viol'].items():
+            rep.violation(kind, '%s (%d schedules): %s; jobs %r' % (kind, cnt, detail, texts),
+                          {'pair': [list(t) for t in texts], 'choices': choices, 'detail': detail, 'schedules': cnt})
+    rexec += cexec
     rep.coverage = {
         'states': tot['steps'] + rexec,
         'transitions': tot['cases'] + bcases + rexec,
@@ -352,13 +379,17 @@ def run(tier, seed):
         'rule': 'A/B: every typed expression tree (14 operators; sizes per part) x 3 renderings, each compiled and run, '
                 'value compared with Python evaluation of the tree; C: built-in argument grids; D: every answer '
                 'sequence of the random source (all 2^k getrandbits answers, <=3 rejection rounds; 64-point random() '
-                'grid) for every -3<=a<=b<=8. distinct_nontrivial = distinct observed output traces.',
+                'grid) for every -3<=a<=b<=8; F: two jobs evaluating the same built-in with different operands on two '
+                'controlled threads, every schedule with <=1 (thorough 2) preemptions at line granularity, each job compared with its solo run. distinct_nontrivial = distinct observed output traces.',
         'exhaustive': True,
         'cases_per_part': per_part,
         'reference_undefined_skipped': tot['undefined'],
         'builtin_evaluations': bcases,
         'random_pairs': len(pairs),
-        'random_answer_sequences': rexec,
+        'random_answer_sequences': rexec - cexec,
+        'concurrent_job_pairs': len(ctasks),
+        'concurrent_schedules': cexec,
+        'concurrent_preemption_bound': ctasks[0][3],
         'samples': ['print { 2 - 3 - 5 }', 'print {2^3^2}', 'if { 2 < 3 and 0 or 7 } print 1 else print 0',
                     'print [random -3 8]  with getrandbits answers [13, 2]'],
     }
@@ -371,6 +402,9 @@ def run(tier, seed):
 def replay(path):
     import json
     v = json.load(open(path))
+    if 'pair' in v['witness']:
+        from . import concur
+        return concur.replay(world.POP_ONE, v['witness']['pair'], v['witness']['choices'])
     text = v['witness']['script']
     w = world.World(world.POP_ONE)
     res = w.run_script(text)
